@@ -145,6 +145,10 @@ func (o *Oracle) updateFields(src engine.Struct, S types.Type, pre engine.Value,
 		zero := o.R.Name(o.IsZero(sv, st))
 		zeroGo := o.R.Name(o.isZeroGo(sv, st))
 		cat := zeroCategory(st)
+		if cat == "pointer" && o.Spec != nil && o.Spec.SkipCopy && types.Identical(st, tf.Type()) {
+			// documented: the nillable category does affect pointers when skipCopySameType takes them over
+			cat = "nillable"
+		}
 		// a nested struct of unnamed type on both sides is part of the method's own struct: it is updated in
 		// place, member by member, every member under the same categories (below the struct-level guard)
 		if _, su := st.(*types.Struct); su {
